@@ -534,28 +534,35 @@ Lemma header_quiet sm pkg user : quiet (header_state sm pkg user) /\ snd (header
 Proof.
   unfold header_state. rewrite emit_node_unfold. unfold emit_node_body. cbn [emit_list fst]. cbv zeta.
   assert (Q0 : quiet init_st) by (split; reflexivity).
-  destruct (tw_wr_quiet c_header _ Q0) as [Q1 L1].
-  destruct (tw_wr_quiet (lit "package ") _ Q1) as [Q2 L2].
-  set (st2 := tw_wr (lit "package ") _) in *.
-  assert (H4 : quiet (if Z.ltb 0 (t_line pkg) then tw_write_add sm (t_lit pkg) pkg st2 else tw_wr (t_lit pkg) st2) /\
-               snd (if Z.ltb 0 (t_line pkg) then tw_write_add sm (t_lit pkg) pkg st2 else tw_wr (t_lit pkg) st2) = snd st2).
-  { destruct (Z.ltb 0 (t_line pkg)); [apply tw_write_add_quiet|apply tw_wr_quiet]; exact Q2. }
-  destruct H4 as [Q4 L4]. set (st4 := if Z.ltb 0 (t_line pkg) then _ else _) in *.
-  destruct (tw_wr_quiet [10; 10] _ Q4) as [Q5 L5].
-  destruct (fold_imports_quiet c_rootImports _ Q5) as [Q6 L6].
-  match goal with |- context [fold_left ?f c_rootImports ?x] => set (st6 := fold_left f c_rootImports x) in * end.
-  assert (E6 : snd st6 = wl_init) by (rewrite L6, L5, L4, L2, L1; reflexivity).
+  assert (E0 : snd init_st = wl_init) by reflexivity.
+  generalize dependent init_st. intros st0 Q0 E0.
+  destruct (tw_wr_quiet c_header st0 Q0) as [Q1 L1]. rewrite E0 in L1.
+  generalize dependent (tw_wr c_header st0). intros st1 Q1 E1.
+  destruct (tw_wr_quiet (lit "package ") st1 Q1) as [Q2 L2]. rewrite E1 in L2.
+  generalize dependent (tw_wr (lit "package ") st1). intros st2 Q2 E2.
+  assert (H4 : forall st4, st4 = (if Z.ltb 0 (t_line pkg) then tw_write_add sm (t_lit pkg) pkg st2 else tw_wr (t_lit pkg) st2) ->
+                quiet st4 /\ snd st4 = wl_init).
+  { intros st4 ->. destruct (Z.ltb 0 (t_line pkg)).
+    - destruct (tw_write_add_quiet sm (t_lit pkg) pkg _ Q2) as [A B]. split; [exact A|rewrite B; exact E2].
+    - destruct (tw_wr_quiet (t_lit pkg) _ Q2) as [A B]. split; [exact A|rewrite B; exact E2]. }
+  destruct (H4 _ eq_refl) as [Q4 E4]. clear H4.
+  generalize dependent (if Z.ltb 0 (t_line pkg) then tw_write_add sm (t_lit pkg) pkg st2 else tw_wr (t_lit pkg) st2). intros st4 Q4 E4.
+  destruct (tw_wr_quiet [10; 10] st4 Q4) as [Q5 L5]. rewrite E4 in L5.
+  generalize dependent (tw_wr [10; 10] st4). intros st5 Q5 E5.
+  destruct (fold_imports_quiet c_rootImports st5 Q5) as [Q6 L6]. rewrite E5 in L6.
+  generalize dependent (fold_left (fun s i => tw_wr (lit "import " ++ i ++ [10]) s) c_rootImports st5). intros st6 Q6 E6.
   destruct user as [|u user]; [split; assumption|].
-  destruct (tw_wr_quiet (lit "import (" ++ [10]) _ Q6) as [Q7 L7].
-  set (s1 := tw_wr (lit "import (" ++ [10]) st6) in *.
+  destruct (tw_wr_quiet (lit "import (" ++ [10]) st6 Q6) as [Q7 L7]. rewrite E6 in L7.
+  generalize dependent (tw_wr (lit "import (" ++ [10]) st6). intros s1 Q7 E7.
   assert (Q8 : quiet (set_local s1 (indent_local (snd s1) 1))).
-  { destruct Q7 as [A B]. split; [exact A|]. cbn. exact B. }
+  { destruct Q7 as [A B]. split; [exact A|]. cbn [set_local snd indent_local wl_static]. exact B. }
   destruct (fold_user_imports_quiet sm (u :: user) _ Q8) as [Q9 L9].
-  match goal with |- context [fold_left ?f (u :: user) ?x] => set (s2 := fold_left f (u :: user) x) in * end.
+  generalize dependent (fold_left (fun s (i : token) => tw_wr [10] (tw_write_indent_add sm (t_lit i) i s)) (u :: user) (set_local s1 (indent_local (snd s1) 1))).
+  intros s2 Q9 L9.
   assert (Q10 : quiet (set_local s2 (snd s1))).
   { destruct Q9 as [A _]. destruct Q7 as [_ B]. split; [exact A|exact B]. }
   destruct (tw_wr_quiet (lit ")" ++ [10]) _ Q10) as [Q11 L11].
-  split; [exact Q11|]. rewrite L11. cbn [set_local snd]. rewrite L7. exact E6.
+  split; [exact Q11|]. rewrite L11. cbn [set_local snd]. exact E7.
 Qed.
 
 Definition header_text (pkg : token) (user : list token) : bytes := txt (header_state false pkg user).
